@@ -59,3 +59,19 @@ Theorem code_SetLOD : forall arc (s : rstate f32) a b,
   go_render_Renderer_SetLOD (r_lod0 s) (r_lod1 s) a b.
 Proof. exact GenEqRender.go_SetLOD_eq. Qed.
 Print Assumptions code_SetLOD.
+
+(* register writes, translated from Renderer.SetCReg / SetNReg (render/render.go): the register is addressed modulo 64 as
+   selector minus ADJ, the colour is resolved (ivg.Color.Resolve, also translated) when stored, the selector is
+   post-incremented modulo 64 -- exactly the model's step, for every state *)
+Theorem code_SetNReg : forall arc (s : rstate f32) adj incr x,
+  (r_nreg (rstep N32 arc s (CSetNReg adj incr x)), r_nsel (rstep N32 arc s (CSetNReg adj incr x))) =
+  go_render_Renderer_SetNReg (r_nreg s) (r_nsel s) adj incr x.
+Proof. exact GenEqRender.go_SetNReg_eq. Qed.
+Print Assumptions code_SetNReg.
+
+Theorem code_SetCReg : forall arc (s : rstate f32) adj incr c,
+  GenEqColor.wf_gcolor c -> ColorProofs.wf_regs (r_pal s) -> ColorProofs.wf_regs (r_creg s) ->
+  (r_creg (rstep N32 arc s (CSetCReg adj incr (abs_color c))), r_csel (rstep N32 arc s (CSetCReg adj incr (abs_color c)))) =
+  go_render_Renderer_SetCReg (r_creg s) (r_csel s) (r_pal s) adj incr c.
+Proof. exact GenEqRender.go_SetCReg_eq. Qed.
+Print Assumptions code_SetCReg.
